@@ -3,7 +3,7 @@ import networkx as nx
 import gen
 from props.base import PropBase, tup
 from props.graphcommon import state_case, known_nodes, has_probes, Truth
-from props.suboracles import o_stream, o_canon
+from props.suboracles import o_stream, o_canon, o_snap
 
 MUST_BLOCK = ['add_edge', 'add_edges_from', 'add_weighted_edges_from', 'update', 'remove_edge', 'remove_edges_from',
               'remove_node', 'remove_nodes_from', 'edges_iter', 'in_edges', 'out_edges', 'in_edges_iter', 'out_edges_iter']
@@ -115,6 +115,8 @@ class C19(PropBase):
             seg = [(op, r) for op, r in zip(prog, ri)]
             # the unclosed two-instant run is C05's finding, not an effect of the inherited API
             fails += [f for f in o_stream(0, prog[:starts0[3] if len(starts0) > 3 else len(prog)], ri, T) if f.get('trigger') != 'unclosed_two_instant_run']
+            # ... and the snapshot ids / counts with it (whatever an earlier life of the object left behind)
+            fails += o_snap(0, prog[:cut], ri, T)
         # clear_edges / clear leave nothing behind
         for i, (op, r) in enumerate(zip(prog, ri)):
             if op[0] == 'clear' and op[1] == 0 and r == 'Done':
